@@ -49,6 +49,22 @@ void c01_group(vf::Tape & t, vf::Ctx & ctx)
   const MatL R12  = M1 * M2;
   ctx.le("matrix(g1*g2)==matrix(g1)matrix(g2)", abs_err(M12, R12), tl * scale_of<G>({&M1, &M2, &R12}));
   ctx.le("matrix() of product", abs_err(orc::toL(g12.matrix()), R12), tl * scale_of<G>({&M1, &M2, &R12}));
+  // the same composition spelled in place, on a value and through a Map view, and with the destination as right
+  // operand: one operation, so the same coefficients
+  {
+    G h = g1;
+    h *= g2;
+    ctx.require("g1 *= g2 gives the coefficients of g1 * g2", (h.coeffs() - g12.coeffs()).isZero(0));
+    using Sc = typename G::Scalar;
+    std::array<Sc, static_cast<size_t>(G::RepSize)> buf;
+    for (int i = 0; i < G::RepSize; ++i) buf[static_cast<size_t>(i)] = g1.coeffs()(i);
+    smooth::Map<G> m(buf.data());
+    m *= g2;
+    ctx.require("Map(g1) *= g2 gives the coefficients of g1 * g2", (m.coeffs() - g12.coeffs()).isZero(0));
+    G sq = g1;
+    sq *= sq;
+    ctx.require("g *= g gives the coefficients of g * g", (sq.coeffs() - (g1 * g1).coeffs()).isZero(0));
+  }
 
   // matrix(inverse(g)) = matrix(g)^-1   (reference inverse by partial-pivot LU in long double)
   const G gi     = g1.inverse();
